@@ -145,6 +145,10 @@ func lenGuard(g Guard, slice ssa.Value) (int64, bool) {
 		return k, true
 	case op == token.NEQ && !g.Outcome:
 		return k, true
+	case op == token.EQL && !g.Outcome && k == 0: // len != 0
+		return 1, true
+	case op == token.NEQ && g.Outcome && k == 0:
+		return 1, true
 	}
 	return 0, false
 }
